@@ -1,5 +1,5 @@
 (* C06, round trip at block level (FormatParseBlockProofs.v), against Parser.v's parseStatement.
-   (also: if / else if / else)
+   (also: if / else if / else, for)
 
    C06_roundtrip_statement_partial: for every statement st that satisfies [sok fr G st], in every
    parser state s that stands on the tokens the formatter writes for st at any indentation level
@@ -14,11 +14,12 @@
    - one-line statements: typed and inferred declarations, assignment to a VARIABLE, call statements,
      return (with and without value), break; values / arguments / conditions in the expression
      fragment of C06_roundtrip.v ([top_ok], [item_ok]);
-   - while statements and if / else if ... / else statements whose blocks are again such lists of
+   - while statements, for statements (with and without loop variable, range with one, two or three
+     expressions) and if / else if ... / else statements whose blocks are again such lists of
      statements (any nesting depth), blank lines between statements included (the formatter squeezes
      a run of blank statements into one line, and the tree compared is squeezed likewise:
      [body_trees]);
-   - NOT covered: for, func, on, assignment to a[i] / m.k, comments (Parser.v's trees do not carry
+   - NOT covered: func, on, assignment to a[i] / m.k, comments (Parser.v's trees do not carry
      them), whole programs (parse_program with the signature pre-pass).
    The scoping side conditions are no longer stated on parser states: they are the conditions of the
    declarative scope checker of ParserScope.v on the checker's context G (declare / cvisible /
